@@ -374,6 +374,9 @@ def run(rep: Report) -> None:
     convert_order(rep, prog)
     plan_order(rep, prog)
     offsets_preserved(rep, prog, resolver)
+    from ..quantity_rules import check_decimal_helpers
+    rep.rule("R03.2", "the Decimal-preserving helpers (ratios and offsets are applied with them) are exact - shared with C03", floor=5)
+    check_decimal_helpers(rep, prog, "R03.2")
     from .c05 import check_in_unit
     check_in_unit(rep, prog, "R05.7")
     offset_composition(rep, prog, resolver)
